@@ -745,9 +745,16 @@ func c18Run(x *vfkit.X, fix *c18Fixture, c c18Case) (v c18Verdict) {
 			}
 			if cause == "full" {
 				dropsPerTarget[m.target]++
+				v.classes = append(v.classes, "full_"+c18MbNames[tg.Mailbox])
 			}
 			if cause != "" {
 				causes[cause] = true
+				if tg.OnB && tg.State == c18Live {
+					v.classes = append(v.classes, "remote_"+cause)
+				}
+				if c.Senders[si].Actor < 0 {
+					v.classes = append(v.classes, "anonymous_"+cause)
+				}
 			}
 			if len(evs) != want {
 				cls := "missing"
@@ -793,6 +800,9 @@ func c18Run(x *vfkit.X, fix *c18Fixture, c c18Case) (v c18Verdict) {
 			want := acceptedPerTarget[i] - c18EffCapacity(tg)
 			if want < 0 {
 				want = 0
+			}
+			if want > 0 {
+				v.classes = append(v.classes, "parked_overflow_exact_count")
 			}
 			if dropsPerTarget[i] != want {
 				return fail("overflow-drop-count", "target#%d (%s capacity %d -> effective %d, parked in Receive): %d messages accepted by Tell, expected %d overflow drops, observed %d",
